@@ -137,29 +137,33 @@ def r2_check_exception(ctx):
                'the non-traceback branch ends in a bare raise of the live exception' if ok else
                'the non-traceback branch does not re-raise the live exception (leaves with %s)' % sorted(toks), anchor=CE)
 
-    # (b) normal exit dominated by a true flag that flows from check_output
-    ok_b = False
-    flag_branch = None
-    for fa in facts:
-        if isinstance(fa.expr, ast.Name) and fa.polarity is True and flows_from(fa.origin.attrs['test'], fa.expr, 'xdoctest.checker.check_output'):
-            ok_b = True
-            flag_branch = fa.origin
+    # (b) every normal exit is edge-dominated by a true flag that flows from check_output (one common exit, or several early returns)
+    exits = [p_ for p_ in g.nodes if any(t is g.exit and k == 'n' for (t, k, tok) in p_.succ)]
+    need(exits, 'C03.R2: check_exception has no normal exit')
+    bad_exit = None
+    flag_tests = []
+    for p_ in exits:
+        fs_ = graph.guard_facts(dom, p_)
+        ok_p = False
+        for fa in fs_:
+            if isinstance(fa.expr, ast.Name) and fa.polarity is True and fa.origin is not None and flows_from(fa.origin.attrs['test'], fa.expr, 'xdoctest.checker.check_output'):
+                ok_p = True
+                flag_tests.append(fa.origin)
+        if not ok_p:
+            bad_exit = (p_, fs_)
+    ok_b = bad_exit is None
     rep.ob('C03.R2b', ctx.loc(f, f.node), 'normal return requires a successful comparison', ok_b,
            'every normal return is edge-dominated by a true flag whose every reaching definition is check_output(...)' if ok_b else
-           'check_exception can return normally without a successful comparison (guards of the exit: %s)' % fmt_facts(facts), anchor=CE)
-    # returned value, if any, is that flag or True-under-flag
+           'check_exception can return normally without a successful comparison (guards of the exit at line %d: %s)' % (bad_exit[0].lineno, fmt_facts(bad_exit[1])), anchor=CE)
+    # (c) whatever does not return raises the got/want error: the only explicit raise classes are GotWantException (plus the bare re-raise of (a))
     if ok_b:
-        t = flag_branch.attrs['test']
-        fb = [b for b in t.nsucc() if b.kind == 'branch' and b is not flag_branch][0]
-        reach = graph.reachable([fb], efilter=graph.normal_only)
-        raises = [n for n in reach if n.kind == 'stmt' and isinstance(n.ast, ast.Raise)]
         toks = set()
-        for n in raises:
-            toks |= {tok for (x, k, tok) in n.succ if k == 'e'}
-        ok = g.exit not in reach and toks == {('exact', 'xdoctest.checker.GotWantException')}
-        rep.ob('C03.R2c', ctx.loc(f, t.ast), 'failed comparison -> raise GotWantException', ok,
-               'the failed-comparison branch raises the got/want error' if ok else
-               'the failed-comparison branch leaves with %s%s' % (sorted(toks), ' or returns normally' if g.exit in reach else ''), anchor=CE)
+        for n in g.nodes:
+            if n.kind == 'stmt' and isinstance(n.ast, ast.Raise) and n.ast.exc is not None and not n.dup:
+                toks |= {tok for (x, k, tok) in n.succ if k == 'e'}
+        ok = toks == {('exact', 'xdoctest.checker.GotWantException')}
+        rep.ob('C03.R2c', ctx.loc(f, f.node), 'failed comparison -> raise GotWantException', ok,
+               'the only explicit raise is the got/want error (a path that does not return raises it)' if ok else 'explicit raises of %s' % sorted(toks), anchor=CE)
 
 
 def _resolves_to(ctx, f, call, qual):
